@@ -8,7 +8,7 @@ in place of fontTools' numeric curve-extrema code, so every *curve-bounds-depend
 independent computation instead.
 -/
 import DefconModel.Util.SExp
-import DefconModel.Geom
+import DefconModel.GeomCache
 
 namespace DefconModel
 namespace Geom
@@ -180,31 +180,65 @@ def isErr : Res → Bool
   | .err _ => true
   | _ => false
 
-def driverStep (w : World) (line : SExp) : World × SExp :=
+def parseXOp : SExp → Option XOp
+  | .list [.atom "cSetPoint", g, i, j, x, y] => do
+    some (.cSetPoint (← asStr? g) (← asNat? i) (← asNat? j) (← asRat? x) (← asRat? y))
+  | .list [.atom "cInsertPoint", g, i, j, p] => do
+    some (.cInsertPoint (← asStr? g) (← asNat? i) (← asNat? j) (← asPoint? p))
+  | .list [.atom "cRemovePoint", g, i, j] => do some (.cRemovePoint (← asStr? g) (← asNat? i) (← asNat? j))
+  | .list [.atom "kSetT", g, j, xx, xy, yx, yy, dx, dy] => do
+    some (.kSetT (← asStr? g) (← asNat? j)
+      ⟨← asRat? xx, ← asRat? xy, ← asRat? yx, ← asRat? yy, ← asRat? dx, ← asRat? dy⟩)
+  | .list [.atom "kSetBase", g, j, b] => do some (.kSetBase (← asStr? g) (← asNat? j) (← asStr? b))
+  | .list [.atom "gDelete", g] => do some (.gDelete (← asStr? g))
+  | .list [.atom "gRename", g, n] => do some (.gRename (← asStr? g) (← asStr? n))
+  | e => (parseOp e).map .base
+
+/-- is the answer to this op only as good as the curve oracle? -/
+def xOracleDependent (w : World) : XOp → Bool
+  | .base op => oracleDependent w op
+  | _ => false
+
+/-- The driver runs the semantics with caches (`cstep`): what it answers equals the functional
+definition by `Props.C17.base_edit_reflected`; the cache probes tie the tables to the objects'
+`hasCachedRepresentation`. -/
+def driverStep (cw : CWorld) (line : SExp) : CWorld × SExp :=
   match line with
   | .list [.atom "caching", b] =>
     match asBool? b with
-    | some v => ({ w with caching := v }, .atom "ok")
-    | none => (w, .atom "bad-op")
-  | .list [.atom "noop"] => (w, .atom "skip")
+    | some v => ({ cw with w := { cw.w with caching := v } }, .atom "ok")
+    | none => (cw, .atom "bad-op")
+  | .list [.atom "noop"] => (cw, .atom "skip")
+  | .list [.atom "kCached", g, j] =>
+    match asStr? g, asNat? j with
+    | some g, some j =>
+      match compAt cw.w (g, j) with
+      | none => (cw, if (AL.get? cw.w.glyphs g).isSome then ofErr .index else ofErr .key)
+      | some _ => (cw, tagged "cached" [ofBool (cw.kbCached g j), ofBool (cw.kcCached g j)])
+    | _, _ => (cw, .atom "bad-op")
+  | .list [.atom "gAreaCached", g] =>
+    match asStr? g with
+    | some g =>
+      if (AL.get? cw.w.glyphs g).isSome then (cw, tagged "cached" [ofBool (cw.gaCached g)]) else (cw, ofErr .key)
+    | none => (cw, .atom "bad-op")
   | .list [.atom "cReverse2", g, i] =>
     -- reverse, read the points, reverse again, read the points
     match asStr? g, asNat? i with
     | some g, some i =>
-      let r1 := step hullOracle w (.cReverse g i)
+      let r1 := cstep hullOracle cw (.base (.cReverse g i))
       if isErr r1.2 then (r1.1, encRes r1.2)
       else
-        let p1 := step hullOracle r1.1 (.cPoints g i)
-        let r2 := step hullOracle p1.1 (.cReverse g i)
-        let p2 := step hullOracle r2.1 (.cPoints g i)
+        let p1 := cstep hullOracle r1.1 (.base (.cPoints g i))
+        let r2 := cstep hullOracle p1.1 (.base (.cReverse g i))
+        let p2 := cstep hullOracle r2.1 (.base (.cPoints g i))
         (p2.1, tagged "twice" [encRes p1.2, encRes p2.2])
-    | _, _ => (w, .atom "bad-op")
+    | _, _ => (cw, .atom "bad-op")
   | _ =>
-    match parseOp line with
-    | none => (w, .atom "bad-op")
+    match parseXOp line with
+    | none => (cw, .atom "bad-op")
     | some op =>
-      let dep := oracleDependent w op
-      let r := step hullOracle w op
+      let dep := xOracleDependent cw.w op
+      let r := cstep hullOracle cw op
       (r.1, if dep && !isErr r.2 then .atom "curved" else encRes r.2)
 
 end Geom
